@@ -46,6 +46,10 @@ type Encoder struct {
 	w     errWriter
 	tmp   []byte
 	nodes nodemap.Map
+
+	// defaults holds the types of the null struct fields whose default
+	// value is being written, outermost first.
+	defaults []uint64
 }
 
 // NewEncoder returns a new encoder that writes to w.
@@ -234,10 +238,25 @@ func (enc *Encoder) marshalFieldValue(s capnp.Struct, f schema.Field) error {
 		if err != nil {
 			return err
 		}
-		if !p.IsValid() {
-			p, _ = dv.StructValue()
+		id := typ.StructType().TypeId()
+		if p.IsValid() {
+			return enc.marshalStruct(id, p.Struct())
 		}
-		return enc.marshalStruct(typ.StructType().TypeId(), p.Struct())
+		// Null pointer: write the field's default value.  For a recursive
+		// type (a list node, a tree) the default of the field contains the
+		// same field again, without end: inside the default value of a
+		// type, a further null field of that type is written as ().
+		for _, d := range enc.defaults {
+			if d == id {
+				enc.w.WriteString("()")
+				return nil
+			}
+		}
+		p, _ = dv.StructValue()
+		enc.defaults = append(enc.defaults, id)
+		err = enc.marshalStruct(id, p.Struct())
+		enc.defaults = enc.defaults[:len(enc.defaults)-1]
+		return err
 	case schema.Type_Which_data:
 		p, err := s.Ptr(uint16(f.Slot().Offset()))
 		if err != nil {
